@@ -113,7 +113,7 @@ impl Prop for C06 {
         vec![
             "layout follows node-gamedig unreal2.js; Latin-1 payload bytes 80..9F excluded (implementation decodes windows-1252)".into(),
             "a UCS-2 string is never directly followed by a byte 01 (documented 'stray 01' skip in the implementation)".into(),
-            "num_players in server info is >= the number of players listed (the client stops reading once it has that many)".into(),
+            "when the players list spans several datagrams, num_players in server info is >= the number of players listed (the client stops reading once it has that many); for a single-datagram list any announced count is used, including 0 with bots listed".into(),
         ]
     }
     fn run_case(&self, tier: Tier, idx: usize, ctx: &mut Ctx) {
@@ -121,10 +121,13 @@ impl Prop for C06 {
         let a = addr();
         let (rules, players) = (case.rules.clone(), case.players.clone());
         let sweep = case.sweep;
+        let player_packets_for_gen = case.player_packets;
         let gen = move |c: &mut crate::vnet::Chooser| {
             let mut s = gen_u2(c, &rules, &players);
-            // keep the advertised count consistent with the list (domain boundary)
-            if (s.num_players as usize) < s.players.len() {
+            // the client stops reading further datagrams once it has as many players as the info reply announced: for a list
+            // spread over several datagrams the announced count is kept >= the list (domain boundary). For a list that fits one
+            // datagram any count is a legal state (e.g. 0 on a server with bots only, which are listed but not counted)
+            if (player_packets_for_gen > 1 || s.players.len() > 8) && (s.num_players as usize) < s.players.len() {
                 s.num_players = s.players.len() as u32;
             }
             if let Some((lb, pos)) = sweep {
